@@ -403,6 +403,9 @@ func c04Run(c *sim.Ctx) {
 		}
 		switch op.K {
 		case "sleep":
+			if op.Arg(0) > 30 {
+				c.S.Fault("clock.jump-past-cleanup-tick")
+			}
 			c.S.Sleep(time.Duration(op.Arg(0)) * time.Second)
 			w.checkAll("sleep")
 		case "padi":
